@@ -112,6 +112,16 @@ def run(ctx):
         ctx.harness_broken("harness TestVerifC11 failed (rc=%d)" % rc, out)
         if not obs:
             return
+    # one payload case per distinct (msize, payload size)
+    seen, keep = set(), []
+    for o in obs:
+        if o["kind"] == "payload":
+            k = (o["msize"], o["cs"])
+            if k in seen:
+                continue
+            seen.add(k)
+        keep.append(o)
+    obs = keep
     # shards of bounded text size
     shards, cur, size = [], [], 0
     for i, o in enumerate(obs):
